@@ -3,10 +3,12 @@ pub mod c02;
 pub mod c03;
 pub mod c08;
 pub mod c15;
+pub mod c19;
 pub mod c04;
 pub mod c05;
 pub mod c07;
 pub mod c09;
+pub mod c10;
 pub mod c11;
 pub mod c12;
 pub mod c13;
@@ -29,9 +31,11 @@ pub fn dispatch(args: &Args, rep: &Arc<Report>) -> bool {
         "c15" => c15::run(args, rep),
         "c04" => c04::run(args, rep),
         "c09" => c09::run(args, rep),
+        "c10" => c10::run(args, rep),
         "c11" => c11::run(args, rep),
         "c12" => c12::run(args, rep),
         "c13" => c13::run(args, rep),
+        "c19" => c19::run(args, rep),
         "dump" => dump(args),
         _ => return false,
     }
